@@ -57,10 +57,11 @@ def build(m, assign, targets, light=False):
         progress = False
         for i in list(pending):
             kind, j = targets[i]
+            linkcls = anytree.SymlinkNode if i % 2 == 0 else pickcls.PLink
             if kind == "ext":
-                nodes[i] = anytree.SymlinkNode(ext[j])
+                nodes[i] = linkcls(ext[j])
             elif j in done:
-                nodes[i] = anytree.SymlinkNode(nodes[j])
+                nodes[i] = linkcls(nodes[j])
             else:
                 continue
             done.add(i)
@@ -71,6 +72,13 @@ def build(m, assign, targets, light=False):
     for i in range(m.n):
         if m.par[i] is not None:
             nodes[i].parent = nodes[m.par[i]]
+    # history before the copy: every leaf once had a child of its own and lost it again through a detach
+    # (whatever an emptied children list is represented by, it must not be shared between the copies of two nodes)
+    for i in range(m.n):
+        if not m.ch[i] and not isinstance(nodes[i], (anytree.SymlinkNode, pickcls.PLink)):
+            tmp = type(nodes[i])("tmp") if not isinstance(nodes[i], anytree.AnyNode) else anytree.AnyNode(id="tmp")
+            tmp.parent = nodes[i]
+            tmp.parent = None
     return nodes, ext
 
 
@@ -154,7 +162,7 @@ def check_copy(m, nodes, ext, entry, cp):
     import anytree
 
     for i, nd in enumerate(nodes):
-        if isinstance(nd, anytree.SymlinkNode):
+        if isinstance(nd, anytree.SymlinkNodeMixin):
             tgt = object.__getattribute__(nd, "__dict__")["target"]
             ctgt = object.__getattribute__(mapping[i], "__dict__").get("target")
             if id(tgt) in omap:
